@@ -144,7 +144,7 @@ def check_format(tier, seed):
 
 def run_all(tier, seed):
     out = []
-    for fn in (check_gregorian, check_range, check_format):
+    for fn in (check_gregorian, check_range, check_format, check_numpy):
         t0 = time.time()
         try:
             r = fn(tier, seed)
@@ -154,3 +154,166 @@ def run_all(tier, seed):
         r["time_s"] = round(time.time() - t0, 2)
         out.append(r)
     return out
+
+
+# ------------------------------------------------------------------------------------- numpy model
+def _concrete_cells(arr):
+    """Evaluate a model array of concrete shape to nested python lists (NaN as None)."""
+    from .interp import nan_of
+    from .values import SV
+    import itertools
+
+    def ev(e):
+        if isinstance(e, SV):
+            n = nan_of(e)
+            if n is not None and z3.is_true(z3.simplify(n)):
+                return None
+            if n is not None and not z3.is_false(z3.simplify(n)):
+                raise AssertionError(f"non-concrete nan flag {n}")
+            t = z3.simplify(e.t)
+            if z3.is_true(t):
+                return True
+            if z3.is_false(t):
+                return False
+            if z3.is_int_value(t):
+                return t.as_long()
+            if z3.is_rational_value(t):
+                return t.numerator_as_long() / t.denominator_as_long()
+            raise AssertionError(f"non-concrete element {t}")
+        if isinstance(e, float) and e != e:
+            return None
+        return e
+    shape = arr.shape
+    assert all(isinstance(d, int) for d in shape), shape
+    out = {}
+    for idx in itertools.product(*[range(d) for d in shape]):
+        out[idx] = ev(arr.get(*[z3.IntVal(i) for i in idx]))
+    return shape, out
+
+
+def _np_cells(a):
+    import numpy as np, itertools
+    out = {}
+    for idx in itertools.product(*[range(d) for d in a.shape]):
+        v = a[idx]
+        if isinstance(v, (np.bool_, bool)):
+            out[idx] = bool(v)
+        elif isinstance(v, (np.integer,)):
+            out[idx] = int(v)
+        else:
+            v = float(v)
+            out[idx] = None if v != v else v
+    return tuple(a.shape), out
+
+
+def _same(m, n):
+    (ms, mc), (ns, nc) = m, n
+    if tuple(ms) != tuple(ns):
+        return False
+    for k in nc:
+        a, b = mc[k], nc[k]
+        if a is None or b is None:
+            if not (a is None and b is None):
+                return False
+        elif isinstance(b, bool) or isinstance(a, bool):
+            if bool(a) != bool(b):
+                return False
+        elif abs(float(a) - float(b)) > 1e-9 * max(1.0, abs(float(b))):
+            return False
+    return True
+
+
+def check_numpy(tier, seed):
+    import numpy as np
+    from .ctx import Ctx
+    from .interp import Interp
+    from .values import LibObj, SV
+    rng = random.Random(seed + 17)
+    lib = L.Lib()
+    N = lib.numpy
+    n = 0
+
+    def rand_arr(r, c):
+        pool = [float("nan"), -1.0, 0.0, 2.0, 0.5, 3.0, 7.0]
+        return np.array([[rng.choice(pool) for _ in range(c)] for _ in range(r)], dtype=float).reshape(r, c)
+
+    def sl(a, b, c):
+        return LibObj("slice", start=a, stop=b, step=c)
+    reps = 40 if tier == "quick" else 400
+    for _ in range(reps):
+        I = Interp(Ctx(), lib)
+        r, c = rng.randint(0, 4), rng.randint(1, 3)
+        A = rand_arr(r, c)
+        M = N.coerce(I, A)
+        cases = []
+        b4, af = rng.randint(0, 2), rng.randint(0, 2)
+        cases.append(("pad", lambda: N.np_pad(I, [M, ((b4, af), (0, 0))], {"mode": "constant", "constant_values": float("nan")}, None),
+                      lambda: np.pad(A, ((b4, af), (0, 0)), mode="constant", constant_values=np.nan)))
+        s0, s1, st = rng.choice([None, -3, -1, 0, 1, 2, 5]), rng.choice([None, -2, -1, 0, 1, 3, 6]), rng.choice([None, 1, -1, 2, -2])
+        cases.append(("slice", lambda: N.getitem(I, M, (sl(s0, s1, st), sl(None, None, None)), None), lambda: A[s0:s1:st, :]))
+        cases.append(("T", lambda: I.getattr(M, "T"), lambda: A.T))
+        cases.append(("isnan", lambda: N.np_isnan(I, [M], {}, None), lambda: np.isnan(A)))
+        cases.append(("all_nan_rows", lambda: N.np_all(I, [N.np_isnan(I, [M], {}, None)], {"axis": 1}, None), lambda: np.all(np.isnan(A), axis=1)))
+        cases.append(("hstack", lambda: N.np_hstack(I, [(M, M)], {}, None), lambda: np.hstack((A, A))))
+        cases.append(("add_bcast", lambda: N.binop(I, "+", M, N.getitem(I, M, (sl(None, None, None), [0]), None), None), lambda: A + A[:, [0]]))
+        cases.append(("mul_scalar", lambda: N.binop(I, "*", M, 2.5, None), lambda: A * 2.5))
+        cases.append(("neg_rev", lambda: N.getitem(I, N.unary(I, __import__("ast").USub(), M, None), (sl(None, None, -1),), None), lambda: (-A)[::-1]))
+        cases.append(("tile", lambda: N.np_tile(I, [N.getitem(I, M, (sl(None, None, None), (-1,)), None), (1, 2)], {}, None), lambda: np.tile(A[:, (-1,)], (1, 2))))
+        cases.append(("repeat", lambda: N.np_repeat(I, [N.getitem(I, M, (sl(None, None, None), [0]), None), 3], {"axis": 1}, None), lambda: np.repeat(A[:, [0]], 3, axis=1)))
+        if r > 0:
+            pos = [rng.randint(-r, r - 1) for _ in range(rng.randint(1, 3))]
+            cols = list(range(c))
+            cases.append(("ix", lambda: N.getitem(I, M, N.np_ix_(I, [pos, cols], {}, None), None), lambda: A[np.ix_(pos, cols)]))
+            cases.append(("fancy_rows", lambda: N.getitem(I, M, (pos, 0), None), lambda: A[pos, 0]))
+            cc = rng.randint(0, c - 1)
+            vals = [float(rng.randint(10, 20)) for _ in pos]
+
+            def m_set():
+                M2 = M.copy()
+                N.setitem(I, M2, (pos, cc), vals, None)
+                return M2
+
+            def n_set():
+                A2 = A.copy()
+                A2[pos, cc] = vals
+                return A2
+            cases.append(("fancy_set", m_set, n_set))
+
+            def m_view_write():
+                M2 = M.copy()
+                v = N.getitem(I, M2, (sl(None, None, -1), sl(None, None, None)), None)
+                N.setitem(I, v, (0, 0), 99.0, None)      # through a reversed view
+                return M2
+
+            def n_view_write():
+                A2 = A.copy()
+                v = A2[::-1, :]
+                v[0, 0] = 99.0
+                return A2
+            cases.append(("write_through_view", m_view_write, n_view_write))
+            cases.append(("reshape", lambda: N.reshape(I, N.getitem(I, M, (sl(None, None, None), 0), None), [-1, 1], None), lambda: A[:, 0].reshape(-1, 1)))
+            bx = ~np.all(np.isnan(A), axis=1)
+            cases.append(("argmax", lambda: NDArr0(I, N.np_argmax(I, [N.unary(I, __import__("ast").Invert(), N.np_all(I, [N.np_isnan(I, [M], {}, None)], {"axis": 1}, None), None)], {}, None)),
+                          lambda: np.array(np.argmax(bx))))
+        for name, mf, nf in cases:
+            try:
+                want = nf()
+            except Exception as ex:
+                want = ex
+            try:
+                got = mf()
+            except Exception as ex:      # the model raises PyRaise where numpy raises
+                got = ex
+            if isinstance(want, Exception) or isinstance(got, Exception):
+                assert isinstance(want, Exception) and isinstance(got, Exception), (name, repr(want)[:80], repr(got)[:80])
+            else:
+                assert _same(_concrete_cells(got), _np_cells(np.asarray(want))), (name, A.tolist(), locals().get("pos"), (s0, s1, st))
+            n += 1
+    return {"contract": "numpy model (pyvc/ndarray.py): pad, slicing/views, fancy get/set, ix_, hstack, isnan/all/argmax, broadcasting, tile/repeat/reshape", "cases": n,
+            "exhaustive": False, "bound": "random arrays up to 4x3 with NaNs, random slices / index lists"}
+
+
+def NDArr0(I, v):
+    """wrap a model scalar as a 0-d array for comparison"""
+    from .ndarray import NDArr
+    return NDArr.fresh(lambda: v, (), "int")
